@@ -299,6 +299,7 @@ class VectorizedMatrixBasis(Basis):
                 vectorized_b.setflags(write=False)
             else:
                 vectorized_b = b.toarray().flatten()
+                vectorized_b.setflags(write=False)
             temp_basis.append(vectorized_b)
         self._basis: Tuple[np.ndarray, ...] = tuple(temp_basis)
 
